@@ -138,8 +138,8 @@ def reset_all():
 
 
 def undefined_variants(t, v, limit=2):
-    """copies of the dataclass instance v (of the ObjectT t) where a field typed Union[X, UndefinedType] holds Undefined:
-    values of the type that deserialization never produces for a field without default"""
+    """copies of the dataclass instance v (of the ObjectT t) where a field typed Union[X, UndefinedType] holds Undefined, or a
+    required none_as_undefined field holds None: values of the type that deserialization never produces"""
     import copy
     import dataclasses
     from apischema import Undefined
@@ -148,11 +148,26 @@ def undefined_variants(t, v, limit=2):
     out = []
     if not (isinstance(t, ObjectT) and t.kind == "dataclass" and dataclasses.is_dataclass(v)):
         return out
+    if t.fields_set:
+        # a with_fields_set instance whose required field has been explicitly unset (only reachable through unset_fields)
+        from apischema.fields import unset_fields
+        for f in t.fields:
+            if f.required and not f.aggregate and not f.init_false and not f.initvar and not f.skip_ser and not f.default_as_set:
+                try:
+                    from apischema.fields import FIELDS_SET_ATTR
+                    c = copy.copy(v)
+                    c.__dict__[FIELDS_SET_ATTR] = set(v.__dict__[FIELDS_SET_ATTR])  # (copy.copy shares the set)
+                    unset_fields(c, f.name)
+                    out.append(c)
+                except Exception:
+                    pass
+                break
     for f in t.fields:
-        if f.undefined and not f.init_false and not f.initvar and len(out) < limit:
+        special = Undefined if f.undefined else None if (f.none_as_undefined and not f.has_default) else ...
+        if special is not ... and not f.init_false and not f.initvar and len(out) < limit + 1:
             try:
                 c = copy.copy(v)
-                object.__setattr__(c, f.name, Undefined)
+                object.__setattr__(c, f.name, special)
                 from apischema.fields import FIELDS_SET_ATTR
                 fs = getattr(v, "__dict__", {}).get(FIELDS_SET_ATTR)
                 if fs is not None:
